@@ -322,6 +322,16 @@ Section Proofs.
     injection H as H1 H2. subst. split; [apply N.ltb_ge in E; exact E|reflexivity].
   Qed.
 
+  (* with the repaired code (no Delete inside LookupWaitingTunnel) a lookup is a pure read: it cannot destroy anything,
+     in particular not a registration made by another node between its Get and the end of the call *)
+  Lemma lookup_read_only : forall c s n t, c_del_expired c = false -> fst (step c s (OLookup n t)) = s.
+  Proof.
+    intros c s n t H. unfold Routing.step. destruct (is_nil t); [reflexivity|].
+    destruct (st_get s _) as [v|]; [|reflexivity].
+    destruct (decode v) as [r0| |]; try reflexivity.
+    destruct (w_expires r0 <? now s); [|reflexivity]. rewrite H. reflexivity.
+  Qed.
+
   (* ---------------------------------------------------------------------------------------------- *)
   (* histories                                                                                       *)
   (* ---------------------------------------------------------------------------------------------- *)
